@@ -24,7 +24,7 @@ theorem foreign_cell_noop (n : Node) (src : Nat) (c : Cell B) (ch : Choice) (h :
   | some nx =>
     simp only [hr] at h
     obtain ⟨hd, hdec⟩ := h
-    simp [relayCell, hp, hd, hdec]
+    simp [relayCell, Gen.relayRefused, hp, hd, hdec]
   | none =>
     simp only [hr] at h
     have : inCrypto A n c = none := by
@@ -55,12 +55,10 @@ theorem relay_routes_along_entry (n : Node) (src : Nat) (c : Cell B) (ch : Choic
   · exact ⟨Or.inl rfl, rfl, rfl, rfl, rfl, fun _ _ => rfl, nx.reCount, hr⟩
   · split
     · exact ⟨Or.inl rfl, rfl, rfl, rfl, rfl, fun _ _ => rfl, nx.reCount, hr⟩
-    · split
-      · exact ⟨Or.inl rfl, rfl, rfl, rfl, rfl, fun _ _ => rfl, nx.reCount, hr⟩
-      · rename_i b _
-        refine ⟨Or.inr ⟨b, rfl⟩, rfl, rfl, rfl, rfl, ?_, nx.reCount + 1, ?_⟩
-        · intro k hk; exact get_set_other _ _ _ _ hk
-        · exact get_set_self _ _ _
+    · rename_i b _
+      refine ⟨Or.inr ⟨b, rfl⟩, rfl, rfl, rfl, rfl, ?_, nx.reCount + 1, ?_⟩
+      · intro k hk; exact get_set_other _ _ _ _ hk
+      · exact get_set_self _ _ _
 
 /-- a cell flagged plaintext that is not a create/created is dropped, whatever id it names -/
 theorem plaintext_noncreate_noop (n : Node) (src : Nat) (c : Cell B) (ch : Choice) (hp : c.plaintext = true)
@@ -68,7 +66,7 @@ theorem plaintext_noncreate_noop (n : Node) (src : Nat) (c : Cell B) (ch : Choic
     processCell A n src c ch = (n, []) := by
   unfold processCell
   cases hr : get n.relays c.cid with
-  | some nx => simp [relayCell, hp]
+  | some nx => simp [relayCell, Gen.relayRefused, hp]
   | none =>
     have hin : inCrypto A n c = some c.body := by
       unfold inCrypto
@@ -78,7 +76,7 @@ theorem plaintext_noncreate_noop (n : Node) (src : Nat) (c : Cell B) (ch : Choic
     | none => rfl
     | some m =>
       have := hm m hq
-      simp [hp, this]
+      simp [Gen.cellRefused, hp, this]
 
 /-- a CREATED whose identifier is not outstanding (neither a pending extension of this relay nor the pending hop of
     the named own circuit) changes nothing -/
@@ -90,12 +88,13 @@ theorem created_not_outstanding_noop (n : Node) (src : Nat) (c : Cell B) (ch : C
     processCell A n src c ch = (n, []) := by
   unfold processCell
   cases hr : get n.relays c.cid with
-  | some nx => simp [relayCell, hp]
+  | some nx => simp [relayCell, Gen.relayRefused, hp]
   | none =>
     have hin : inCrypto A n c = some c.body := by
       unfold inCrypto
       cases get n.exits c.cid <;> cases get n.circuits c.cid <;> simp [hp]
-    simp only [hin, hm, Msg.isExtend, Msg.noCrypto, handle, onCreated, h1]
+    simp only [hin, hm, Gen.cellRefused, Msg.isExtend, Msg.noCrypto, hp, handle, onCreated, h1, Bool.not_true, Bool.and_false,
+      Bool.and_true, Bool.or_false, Bool.false_eq_true, Bool.not_false, if_false]
     cases hc : get n.circuits c.cid with
     | none => simp
     | some circ =>
@@ -117,8 +116,8 @@ theorem created_for_unknown_circuit_id_never_completes_an_extension (n : Node) (
     | nil => intro _; rfl
     | cons r t ih =>
       intro h
-      have hr : ¬ (r.number = ident ∧ r.toId = c.cid) := fun hh => h r List.mem_cons_self hh.2
-      simp only [popCreate, hr, if_false, ih (fun rq hrq => h rq (List.mem_cons_of_mem _ hrq))]
+      have hr : ¬ (r.toId = c.cid) := fun hh => h r List.mem_cons_self hh
+      simp [popCreate, Gen.createdMatches, hr, ih (fun rq hrq => h rq (List.mem_cons_of_mem _ hrq))]
   exact created_not_outstanding_noop A n src c ch ident key authPk dhRef hp hm (hnone _ hpend)
     (fun circ hc => by rw [hown] at hc; cases hc)
 
@@ -130,9 +129,18 @@ theorem create_in_use_refused (n : Node) (src cid ident pk dh : Nat)
     (h : n.inUse cid = true ∨ n.created.contains cid = true) :
     onCreate A n src cid ident pk dh = (n, []) := by
   unfold onCreate
-  cases h with
-  | inl h => simp [h]
-  | inr h => rw [if_pos h]
+  have hg : Gen.createRefused true (n.created.contains cid) (has n.circuits cid) (has n.relays cid) (has n.exits cid)
+      = true := by
+    rw [gen_createRefused]
+    cases h with
+    | inl h =>
+      simp only [Node.inUse, Bool.or_eq_true] at h
+      rcases h with (h | h) | h
+      · exact Or.inr (Or.inl h)
+      · exact Or.inr (Or.inr (Or.inl h))
+      · exact Or.inr (Or.inr (Or.inr h))
+    | inr h => exact Or.inl h
+  rw [if_pos hg]
 
 /-- the same at the datagram level: a plaintext CREATE cell for an id in use leaves the node unchanged -/
 theorem create_cell_in_use_refused (n : Node) (src : Nat) (c : Cell B) (ch : Choice) (ident pk dh : Nat)
@@ -141,12 +149,13 @@ theorem create_cell_in_use_refused (n : Node) (src : Nat) (c : Cell B) (ch : Cho
     processCell A n src c ch = (n, []) := by
   unfold processCell
   cases hr : get n.relays c.cid with
-  | some nx => simp [relayCell, hp]
+  | some nx => simp [relayCell, Gen.relayRefused, hp]
   | none =>
     have hin : inCrypto A n c = some c.body := by
       unfold inCrypto
       cases get n.exits c.cid <;> cases get n.circuits c.cid <;> simp [hp]
-    simp only [hin, hm, Msg.isExtend, Msg.noCrypto, handle]
+    simp only [hin, hm, Gen.cellRefused, Msg.isExtend, Msg.noCrypto, hp, handle, Bool.not_true, Bool.and_false, Bool.and_true,
+      Bool.or_false, Bool.false_eq_true, Bool.not_false, if_false]
     simpa using create_in_use_refused A n src c.cid ident pk dh h
 
 /-- and an accepted CREATE (fresh id) only adds: every existing entry is still there, unchanged -/
@@ -158,16 +167,14 @@ theorem create_fresh_only_adds (n : Node) (src cid ident pk dh : Nat) (k : Nat) 
   · exact ⟨rfl, rfl, rfl⟩
   · split
     · exact ⟨rfl, rfl, rfl⟩
-    · split
-      · exact ⟨rfl, rfl, rfl⟩
-      · rename_i hin _
-        have hc : get n.circuits cid = none := by
-          simp only [Node.inUse, has, Bool.or_eq_true, not_or] at hin
-          cases hg : get n.circuits cid with
-          | none => rfl
-          | some x => simp [hg] at hin
-        simp only [sendMsg, sendCell, mkCell, hc]
-        split <;> exact ⟨get_set_other _ _ _ _ hk, rfl, rfl⟩
+    · rename_i hin _
+      have hc : get n.circuits cid = none := by
+        rw [gen_createRefused] at hin
+        cases hg : get n.circuits cid with
+        | none => rfl
+        | some x => exact absurd (Or.inr (Or.inl (by simp [has, hg]))) hin
+      simp only [sendMsg, sendCell, mkCell, hc]
+      split <;> exact ⟨get_set_other _ _ _ _ hk, rfl, rfl⟩
 
 /-! ## a destroy removes an entry only if it is signed by the adjacent peer of that entry -/
 
@@ -184,6 +191,7 @@ theorem destroy_unauthorised_noop (n : Node) (signer cid : Nat) (ok : Bool) (rea
     obtain ⟨hR, hE, hC⟩ := h'
     have hvia : viaRelay n signer cid = none := by
       unfold viaRelay
+      try simp only [gen_destroyViaRelay, gen_destroyExit, gen_destroyCircuit]
       cases hr : get n.relays cid with
       | none => rfl
       | some nx =>
@@ -194,6 +202,7 @@ theorem destroy_unauthorised_noop (n : Node) (signer cid : Nat) (ok : Bool) (rea
           simp [hp, h0]
     have hcirc : destroyCircuit (B := B) n signer cid = (n, []) := by
       unfold destroyCircuit
+      try simp only [gen_destroyViaRelay, gen_destroyExit, gen_destroyCircuit]
       cases hc : get n.circuits cid with
       | none => rfl
       | some c =>
@@ -201,6 +210,7 @@ theorem destroy_unauthorised_noop (n : Node) (signer cid : Nat) (ok : Bool) (rea
         simp only [h2, if_false]
     have hloc : destroyLocal (B := B) n signer cid = (n, []) := by
       unfold destroyLocal
+      try simp only [gen_destroyViaRelay, gen_destroyExit, gen_destroyCircuit]
       cases he : get n.exits cid with
       | none => simpa using hcirc
       | some e =>
@@ -228,6 +238,7 @@ theorem destroy_only_by_neighbour (n : Node) (signer cid : Nat) (ok : Bool) (rea
       (r.1.circuits = n.circuits ∨ ∃ c, get n.circuits cid = some c ∧ c.firstHop.map Hop.peer = some signer ∧
         r.1.circuits = (rmCircuit n cid).circuits) := by
     unfold destroyCircuit
+    try simp only [gen_destroyViaRelay, gen_destroyExit, gen_destroyCircuit]
     cases hc : get n.circuits cid with
     | none => exact ⟨rfl, rfl, Or.inl rfl⟩
     | some c =>
@@ -241,6 +252,7 @@ theorem destroy_only_by_neighbour (n : Node) (signer cid : Nat) (ok : Bool) (rea
       (r.1.circuits = n.circuits ∨ ∃ c, get n.circuits cid = some c ∧ c.firstHop.map Hop.peer = some signer ∧
         r.1.circuits = (rmCircuit n cid).circuits) := by
     unfold destroyLocal
+    try simp only [gen_destroyViaRelay, gen_destroyExit, gen_destroyCircuit]
     cases he : get n.exits cid with
     | none => exact ⟨hcirc.1, Or.inl hcirc.2.1, hcirc.2.2⟩
     | some e =>
@@ -266,6 +278,7 @@ theorem destroy_only_by_neighbour (n : Node) (signer cid : Nat) (ok : Bool) (rea
     | some nx =>
       refine ⟨Or.inr ⟨trivial, ?_⟩, Or.inl (rmRelays_other n cid nx.next).1, Or.inl (rmRelays_other n cid nx.next).2⟩
       unfold viaRelay at hv
+      try simp only [gen_destroyViaRelay, gen_destroyExit, gen_destroyCircuit] at hv
       cases hr : get n.relays cid with
       | none => simp [hr] at hv
       | some nx' =>
@@ -309,6 +322,7 @@ theorem destroy_schedules_only_named_entries (n : Node) (signer cid : Nat) (ok :
     | some nx =>
       have hnx : get n.relays cid = some nx := by
         unfold viaRelay at hv
+        try simp only [gen_destroyViaRelay, gen_destroyExit, gen_destroyCircuit] at hv
         cases hr : get n.relays cid with
         | none => simp [hr] at hv
         | some nx' =>
@@ -330,6 +344,7 @@ theorem destroy_schedules_only_named_entries (n : Node) (signer cid : Nat) (ok :
       · exact ⟨[], by simp [rmRelays, hd], fun x hx => by cases hx⟩
     | none =>
       unfold destroyLocal destroyCircuit
+      try simp only [gen_destroyViaRelay, gen_destroyExit, gen_destroyCircuit]
       by_cases hd : n.defer = true
       · cases he : get n.exits cid with
         | some e =>
@@ -388,15 +403,14 @@ theorem delivery_authentic_partial (n : Node) (src : Nat) (c : Cell B) (ch : Cho
         simp only [hq] at ho
         split at ho
         · simp at ho
-        · split at ho
-          · simp at ho
-          · rename_i h1 h2
-            cases m with
+        · rename_i h2
+          rw [gen_cellRefused] at h2
+          cases m with
             | data dest org tag =>
               have hp : c.plaintext = false := by
                 cases hpt : c.plaintext with
                 | false => rfl
-                | true => simp [hpt, Msg.noCrypto] at h2
+                | true => exact absurd (Or.inr ⟨hpt, rfl⟩) h2
               exact ⟨rfl, hp, b, dest, org, tag, rfl, hq, ho⟩
             | create ident pk dh =>
               exact absurd hl (by simp [onCreate_noLog A _ _ _ _ _ _ o ho])
@@ -429,36 +443,35 @@ theorem on_data_labels (n : Node) (src cid dest org tag : Nat) (o : Out B)
       | none => simp [he] at h
       | some e =>
         simp only [he] at h
-        by_cases h0 : e.phase = 0
-        · rw [if_pos h0] at h
-          by_cases hs : src = e.hop.addr
-          · rw [if_pos hs] at h
+        split at h
+        · simp at h
+        · by_cases h0 : e.phase = 0
+          · rw [if_pos h0] at h
             simp at h
-          · rw [if_neg hs] at h
-            simp at h
-        · rw [if_neg h0] at h
-          by_cases h1 : e.phase = 1
-          · rw [if_pos h1] at h
-            simp at h
-          · rw [if_neg h1] at h
-            simp at h
-            exact ⟨h, e, rfl, by omega⟩
+          · rw [if_neg h0] at h
+            by_cases h1 : e.phase = 1
+            · rw [if_pos h1] at h
+              simp at h
+            · rw [if_neg h1] at h
+              simp at h
+              exact ⟨h, e, rfl, by omega⟩
   unfold onData at ho
+  simp only [gen_dataOurs] at ho
   cases hc : get n.circuits cid with
   | none =>
-    simp only [hc] at ho
+    simp only [hc, has, get, Option.isSome, Bool.false_and] at ho
     exact Or.inl (hexit (by simpa using ho))
   | some circ =>
     cases hf : circ.firstHop with
     | none =>
-      simp only [hc, hf] at ho
+      simp only [hc, hf, Bool.and_false] at ho
       exact Or.inl (hexit (by simpa using ho))
     | some fh =>
       by_cases hs : src = fh.addr
       · right
-        simp [hc, hf, hs] at ho
+        simp [hc, hf, hs, has] at ho
         exact ⟨ho, circ, fh, rfl, hf, hs⟩
-      · simp only [hc, hf, hs, decide_false] at ho
+      · simp only [hc, hf, hs, decide_false, Bool.and_false] at ho
         exact Or.inl (hexit (by simpa using ho))
 
 /-- return path (TunnelExitSocket.tunnel_data): what arrives from outside at exit socket `cid` is sent only to that
@@ -481,7 +494,11 @@ theorem relay_forward_step (L : AeadLaws A) (n : Node) (src : Nat) (ch : Choice)
     cases hre with
     | inl h => simp [h]
     | inr h => simp; intro _; omega
-  simp [processCell, hr, relayCell, hd, L.dec_enc, hcond]
+  have hg : Gen.relayRefused false re (decide (maxRE ≤ nx.reCount)) = false := by
+    cases hb : Gen.relayRefused false re (decide (maxRE ≤ nx.reCount)) with
+    | false => rfl
+    | true => rw [gen_relayRefused] at hb; simp at hb; simp [hb.1, hb.2] at hcond
+  simp [processCell, hr, relayCell, hd, L.dec_enc, hg]
 
 /-- one relay hop, backward: one layer of this entry's key is added and the cell goes to the previous hop -/
 theorem relay_backward_step (n : Node) (src : Nat) (ch : Choice) (cid : Nat) (re : Bool) (body : B)
@@ -492,7 +509,11 @@ theorem relay_backward_step (n : Node) (src : Nat) (ch : Choice) (cid : Nat) (re
     cases hre with
     | inl h => simp [h]
     | inr h => simp; intro _; omega
-  simp [processCell, hr, relayCell, hd, hcond]
+  have hg : Gen.relayRefused false re (decide (maxRE ≤ nx.reCount)) = false := by
+    cases hb : Gen.relayRefused false re (decide (maxRE ≤ nx.reCount)) with
+    | false => rfl
+    | true => rw [gen_relayRefused] at hb; simp at hb; simp [hb.1, hb.2] at hcond
+  simp [processCell, hr, relayCell, hd, hg]
 
 /-- the exit: a DATA cell under the exit entry's key leaves through exactly that entry -/
 theorem exit_step (L : AeadLaws A) (n : Node) (ch : Choice) (cid : Nat) (re : Bool) (e : ExitE) (dest org tag : Nat)
@@ -502,8 +523,9 @@ theorem exit_step (L : AeadLaws A) (n : Node) (ch : Choice) (cid : Nat) (re : Bo
       [Out.exitOut cid dest tag] := by
   have h0 : ¬ e.phase = 0 := by omega
   have h1 : ¬ e.phase = 1 := by omega
+  have hp : (e.phase != 0) = true := by simp [h0]
   simp [processCell, hr, inCrypto, he, L.dec_enc, L.parse_plain, Msg.isExtend, Msg.noCrypto, handle, onData, hc,
-    hdest, exitData, h0, h1]
+    hdest, exitData, h0, h1, hp, Gen.cellRefused, Gen.dataOurs, Gen.exitDataRefuses, has]
 
 /-- layers: what the originator puts on (first hop outermost) is exactly what the hops take off in order -/
 theorem decryptAll_encryptAll (L : AeadLaws A) (d : Dir) (ks : List Nat) (b : B) :
@@ -521,7 +543,7 @@ theorem originator_step (L : AeadLaws A) (n : Node) (ch : Choice) (cid : Nat) (r
         ⟨cid, false, re, encryptAll A .bwd (circ.hops.map Hop.key) (A.plain (.data 0 org tag))⟩ ch).2 =
       [Out.rawIn cid org tag] := by
   simp [processCell, hr, inCrypto, he, hc, hne, decryptAll_encryptAll A L, L.parse_plain, Msg.isExtend, Msg.noCrypto,
-    handle, onData, hf]
+    handle, onData, hf, Gen.cellRefused, Gen.dataOurs, has]
 
 
 /-- FORWARD, any number of hops, any other circuits through the same relays: data onion-wrapped for the keys
@@ -577,7 +599,7 @@ theorem backward_path (rs : List (Node × Relay)) (orig : Node) (cid last : Nat)
 example : through sym [exR1, exR2] exX 9 ⟨500, false, true, encryptAll sym .fwd [71, 72, 73] (sym.plain (.data 55 0 7))⟩
     = some [Out.exitOut 700 55 7] := by decide
 example : FwdChain true [(exR1, ⟨600, ⟨2, 2, 71⟩, .fwd, 1⟩), (exR2, ⟨700, ⟨3, 3, 72⟩, .fwd, 1⟩)] 500 700 := by
-  simp [FwdChain, exR1, exR2, Node.init, get, maxRE]
+  simp [FwdChain, exR1, exR2, Node.init, get, maxRE, Gen.maxRelayEarly]
 /-- steady state: relays that have carried thousands of cells (relay_early budget long spent) still satisfy the
     chain hypothesis for unflagged cells, and the data still leaves through exit entry 700 only -/
 example : FwdChain false [(exR1old, ⟨600, ⟨2, 2, 71⟩, .fwd, 4000⟩), (exR2, ⟨700, ⟨3, 3, 72⟩, .fwd, 1⟩)] 500 700 := by
@@ -621,8 +643,17 @@ theorem park_only_in_own_queue (n : Node) (src cid dest tag : Nat) :
   cases he : get n.exits cid with
   | none => exact ⟨fun _ _ => rfl, fun e _ h => by cases h⟩
   | some e =>
+    have keep : (∀ k, k ≠ cid → get n.exits k = get n.exits k) ∧
+        ∀ e0 e', some e = some e0 → get n.exits cid = some e' →
+          e'.hop = e0.hop ∧ (e'.queue = e0.queue ∨ e'.queue = pushQ e0.queue (cid, dest, tag)) := by
+      refine ⟨fun _ _ => rfl, ?_⟩
+      intro e0 e' h0 h'
+      rw [he] at h'
+      cases h0; cases h'
+      exact ⟨rfl, Or.inl rfl⟩
     dsimp only
     split
+    · exact keep
     · split
       · refine ⟨fun k hk => get_set_other _ _ _ _ hk, ?_⟩
         intro e0 e' h0 h'
@@ -630,23 +661,14 @@ theorem park_only_in_own_queue (n : Node) (src cid dest tag : Nat) :
         rw [get_set_self] at h'
         cases h'
         exact ⟨rfl, Or.inr rfl⟩
-      · refine ⟨fun _ _ => rfl, ?_⟩
-        intro e0 e' h0 h'
-        rw [he] at h'
-        cases h0; cases h'
-        exact ⟨rfl, Or.inl rfl⟩
-    · split
-      · refine ⟨fun k hk => get_set_other _ _ _ _ hk, ?_⟩
-        intro e0 e' h0 h'
-        cases h0
-        rw [get_set_self] at h'
-        cases h'
-        exact ⟨rfl, Or.inr rfl⟩
-      · refine ⟨fun _ _ => rfl, ?_⟩
-        intro e0 e' h0 h'
-        rw [he] at h'
-        cases h0; cases h'
-        exact ⟨rfl, Or.inl rfl⟩
+      · split
+        · refine ⟨fun k hk => get_set_other _ _ _ _ hk, ?_⟩
+          intro e0 e' h0 h'
+          cases h0
+          rw [get_set_self] at h'
+          cases h'
+          exact ⟨rfl, Or.inr rfl⟩
+        · exact keep
 
 /-- the invariant "every parked packet sits in the queue of the socket whose id its cell carried" is preserved by
     EVERY step of a node: any cell from anybody, any destroy, every API call, every completion of a transport -/
@@ -784,44 +806,69 @@ theorem other_circuits_cell_noop_at_relay (L : AeadLaws A) (n : Node) (src cid :
 /-- `on_created` on a pending extension `rq`: if it changes the relay table or the exit table at all, the exit entry
     found under `rq.fromId` is the very entry the extension was requested on — same peer, same address, same
     session key (the code compares the hop's Peer object by identity; a session key is drawn per join_circuit, so
-    equality of the recorded hop stands for object identity).  A peer that re-creates the id, even one that claims
-    the previous owner's public key in its CREATE, gets a different entry and is left alone. -/
+    equality of the recorded hop stands for object identity) — AND the id reserved for the next hop is not in use.
+    Both facts come out of the GENERATED guard `Gen.createdRefused` (via `gen_createdRefused`). -/
 theorem extension_completes_only_on_the_requesting_entry (n : Node) (cid ident key authPk dhRef : Nat) (ch : Choice)
     (rq : CreateReq) (rest : List CreateReq) (hpop : popCreate n.creates ident cid = some (rq, rest)) :
     let r := onCreated A n cid ident key authPk dhRef ch
     (r.1.relays = n.relays ∧ r.1.exits = n.exits ∧ r.2 = []) ∨
-    (∃ e, get n.exits rq.fromId = some e ∧ e.hop = rq.peer) := by
+    (∃ e, get n.exits rq.fromId = some e ∧ e.hop = rq.peer ∧ n.inUse rq.toId = false) := by
   unfold onCreated
   simp only [hpop]
-  cases he : get n.exits rq.fromId with
-  | none => exact Or.inl ⟨rfl, rfl, rfl⟩
-  | some e =>
-    by_cases hpeer : e.hop = rq.peer
-    · exact Or.inr ⟨e, rfl, hpeer⟩
-    · left
-      simp only [ne_eq, hpeer, not_false_eq_true, if_true]
-      exact ⟨trivial, trivial, trivial⟩
+  split
+  · exact Or.inl ⟨rfl, rfl, rfl⟩
+  · rename_i hg
+    rw [gen_createdRefused] at hg
+    cases he : get n.exits rq.fromId with
+    | none => exact Or.inl ⟨rfl, rfl, rfl⟩
+    | some e =>
+      right
+      refine ⟨e, rfl, ?_, ?_⟩
+      · by_cases hh : e.hop = rq.peer
+        · exact hh
+        · exact absurd (Or.inr (Or.inl (by simp [he, hh]))) hg
+      · cases hu : n.inUse rq.toId with
+        | false => rfl
+        | true =>
+          exfalso
+          apply hg
+          simp only [Node.inUse, Bool.or_eq_true] at hu
+          rcases hu with (h | h) | h
+          · exact Or.inr (Or.inr (Or.inl h))
+          · exact Or.inr (Or.inr (Or.inr (Or.inl h)))
+          · exact Or.inr (Or.inr (Or.inr (Or.inr h)))
 
 /-- the route a relay has established cannot be replaced by a late answer to an earlier extend request of the same
     circuit: the conversion removes the exit socket under `rq.fromId` AT ONCE — with or without remove_tunnel_delay
-    (`n.defer` is not consulted) — so by `extension_completes_only_on_the_requesting_entry` any later CREATED for a
-    request with the same `fromId` finds no exit entry and installs nothing -/
+    (`n.defer` is not consulted; this is the GENERATED constant `Gen.convertRemovesNow`, i.e. `remove_now=True` in the
+    code) — so by the theorem above any later CREATED for a request with the same `fromId` finds no exit entry -/
 theorem conversion_removes_the_exit_socket_at_once (n : Node) (cid ident key authPk dhRef : Nat) (ch : Choice)
     (rq : CreateReq) (rest : List CreateReq) (e : ExitE) (hpop : popCreate n.creates ident cid = some (rq, rest))
     (he : get n.exits rq.fromId = some e) (hsame : e.hop = rq.peer) (hfree : n.inUse rq.toId = false) :
     let r := onCreated A n cid ident key authPk dhRef ch
     get r.1.exits rq.fromId = none ∧ (get r.1.relays rq.fromId).isSome = true := by
   unfold onCreated
-  have h' : ({ n with creates := rest } : Node).inUse rq.toId = false := hfree
-  simp only [hpop, he, ne_eq, hsame, not_true_eq_false, if_false, h', Bool.false_eq_true]
+  simp only [Node.inUse, Bool.or_eq_false_iff] at hfree
+  have hg : Gen.createdRefused (get n.exits rq.fromId).isSome
+      (decide ((get n.exits rq.fromId).map ExitE.hop = some rq.peer))
+      (has n.circuits rq.toId) (has n.relays rq.toId) (has n.exits rq.toId) = false := by
+    cases hb : Gen.createdRefused (get n.exits rq.fromId).isSome
+      (decide ((get n.exits rq.fromId).map ExitE.hop = some rq.peer))
+      (has n.circuits rq.toId) (has n.relays rq.toId) (has n.exits rq.toId) with
+    | false => rfl
+    | true =>
+      rw [gen_createdRefused] at hb
+      simp [he, hsame, hfree.1.1, hfree.1.2, hfree.2] at hb
+  simp only [hpop]
+  rw [hg]
+  simp only [Bool.false_eq_true, if_false, he, gen_convertRemovesNow, if_true]
   refine ⟨get_del_self _ _, ?_⟩
   unfold sendMsg
   rw [(sendCell_relays A _ _ _ _).1, get_set_self]
   rfl
 
 /-- and whatever it does, it touches only the two ids of that extension: every other relay entry and every other exit
-    entry is as before (no freshness assumption needed for this; what is NOT excluded is that `rq.toId` or `rq.fromId`
-    already named a relay entry of another circuit — `_generate_circuit_id` only avoids ids in `circuits`) -/
+    entry is as before -/
 theorem extension_touches_only_its_ids (n : Node) (cid ident key authPk dhRef : Nat) (ch : Choice)
     (rq : CreateReq) (rest : List CreateReq) (hpop : popCreate n.creates ident cid = some (rq, rest)) :
     let r := onCreated A n cid ident key authPk dhRef ch
@@ -829,21 +876,18 @@ theorem extension_touches_only_its_ids (n : Node) (cid ident key authPk dhRef : 
     (∀ k, k ≠ rq.fromId → get r.1.exits k = get n.exits k) := by
   unfold onCreated
   simp only [hpop]
-  cases he : get n.exits rq.fromId with
-  | none => exact ⟨fun _ _ _ => rfl, fun _ _ => rfl⟩
-  | some e =>
-    by_cases hpeer : e.hop = rq.peer
-    · simp only [ne_eq, hpeer, not_true_eq_false, if_false]
-      split
-      · exact ⟨fun _ _ _ => rfl, fun _ _ => rfl⟩
-      · refine ⟨fun k h1 h2 => ?_, fun k h2 => ?_⟩
-        · unfold sendMsg
-          rw [(sendCell_relays A _ _ _ _).1]
-          rw [get_set_other _ _ _ _ h2, get_set_other _ _ _ _ h1]
-        · unfold sendMsg
-          rw [get_del_other _ _ _ h2, (sendCell_relays A _ _ _ _).2]
-    · simp only [ne_eq, hpeer, not_false_eq_true, if_true]
-      exact ⟨fun _ _ _ => trivial, fun _ _ => trivial⟩
+  split
+  · exact ⟨fun _ _ _ => rfl, fun _ _ => rfl⟩
+  · cases he : get n.exits rq.fromId with
+    | none => exact ⟨fun _ _ _ => rfl, fun _ _ => rfl⟩
+    | some e =>
+      simp only [gen_convertRemovesNow, if_true]
+      refine ⟨fun k h1 h2 => ?_, fun k h2 => ?_⟩
+      · unfold sendMsg
+        rw [(sendCell_relays A _ _ _ _).1]
+        rw [get_set_other _ _ _ _ h2, get_set_other _ _ _ _ h1]
+      · unfold sendMsg
+        rw [get_del_other _ _ _ h2, (sendCell_relays A _ _ _ _).2]
 
 /-- the extending side of "an id that is in use is never replaced": if the id reserved for the next hop has been
     taken meanwhile (by any of the three tables), the late CREATED installs nothing -/
@@ -852,17 +896,20 @@ theorem extension_never_overwrites_a_used_id (n : Node) (cid ident key authPk dh
     (huse : n.inUse rq.toId = true) :
     let r := onCreated A n cid ident key authPk dhRef ch
     r.1.relays = n.relays ∧ r.1.exits = n.exits ∧ r.1.circuits = n.circuits ∧ r.2 = [] := by
-  unfold onCreated
-  simp only [hpop]
-  cases he : get n.exits rq.fromId with
-  | none => exact ⟨rfl, rfl, rfl, rfl⟩
-  | some e =>
-    have h' : ({ n with creates := rest } : Node).inUse rq.toId = true := huse
-    by_cases hpeer : e.hop = rq.peer
-    · simp only [ne_eq, hpeer, not_true_eq_false, if_false, h', if_true]
-      exact ⟨trivial, trivial, trivial, trivial⟩
-    · simp only [ne_eq, hpeer, not_false_eq_true, if_true]
-      exact ⟨trivial, trivial, trivial, trivial⟩
+  have h := extension_completes_only_on_the_requesting_entry A n cid ident key authPk dhRef ch rq rest hpop
+  unfold onCreated at h ⊢
+  simp only [hpop] at h ⊢
+  split
+  · exact ⟨rfl, rfl, rfl, rfl⟩
+  · rename_i hg
+    rw [gen_createdRefused] at hg
+    exfalso
+    apply hg
+    simp only [Node.inUse, Bool.or_eq_true] at huse
+    rcases huse with (h1 | h1) | h1
+    · exact Or.inr (Or.inr (Or.inl h1))
+    · exact Or.inr (Or.inr (Or.inr (Or.inl h1)))
+    · exact Or.inr (Or.inr (Or.inr (Or.inr h1)))
 
 /-- the created-cache does NOT protect an id for as long as an extension of it is pending: the two caches expire
     independently (60 s from join_circuit vs 10 s from on_extend).  Witness: `exP` (exit 700 gone, extension pending,
@@ -926,6 +973,61 @@ theorem intro_point_is_first_come (n : Node) (intros : List (Nat × Nat × Nat))
 example : onEstablishIntro exX [(77, 700, 5)] 700 77 6 = [(77, 700, 5)] := by decide
 example : onEstablishIntro exQ [(77, 700, 5)] 701 77 6 = [(77, 700, 5)] := by decide
 example : onEstablishIntro exQ [(77, 700, 5)] 701 78 6 = [(77, 700, 5), (78, 701, 6)] := by decide
+
+/-! ## the remaining generated guards, tied to the model's functions -/
+
+/-- the model's `noCrypto` (may carry the plaintext flag) and `isExtend` (subject to the relay_early rule) are what
+    payload.py's NO_CRYPTO_PACKETS and ExtendPayload.msg_id say today -/
+theorem message_classes_match_generated (m : Msg) (h : ∀ mid, m = .other mid → mid ∉ [1, 2, 3, 4, 5, 6, 7]) :
+    m.noCrypto = Gen.noCryptoIds.contains m.id ∧ m.isExtend = (m.id == 4) := by
+  cases m with
+  | other mid =>
+    have := h mid rfl
+    simp only [List.mem_cons, List.not_mem_nil, or_false, not_or] at this
+    obtain ⟨h1, h2, h3, h4, h5, h6, h7⟩ := this
+    simp [Msg.noCrypto, Msg.isExtend, Msg.id, Gen.noCryptoIds, h2, h3, h4]
+  | _ => simp [Msg.noCrypto, Msg.isExtend, Msg.id, Gen.noCryptoIds, Gen.msgIdData, Gen.msgIdCreate, Gen.msgIdCreated,
+      Gen.msgIdExtend, Gen.msgIdExtended, Gen.msgIdPing, Gen.msgIdPong]
+
+/-- incoming_crypto: whenever the GENERATED refusal (unknown id, or own circuit without verified hops, not flagged
+    plaintext) fires, the model's `inCrypto` hands nothing on -/
+theorem incoming_crypto_refusal_matches_generated (n : Node) (c : Cell B)
+    (h : Gen.inCryptoRefuses (has n.circuits c.cid) (has n.exits c.cid) c.plaintext
+          (match get n.circuits c.cid with | some circ => !circ.hops.isEmpty | none => false) = true) :
+    inCrypto A n c = none := by
+  unfold inCrypto
+  cases he : get n.exits c.cid with
+  | some e => simp [Gen.inCryptoRefuses, has, he] at h
+  | none =>
+    cases hc : get n.circuits c.cid with
+    | none =>
+      simp [Gen.inCryptoRefuses, has, he, hc] at h
+      simp [h]
+    | some circ =>
+      simp [Gen.inCryptoRefuses, has, he, hc] at h
+      simp [h.1, h.2]
+
+/-- outgoing_crypto: whenever the GENERATED refusal (not flagged plaintext and no keys: own circuit without hops, or an
+    id with no entry at all) fires, the model sends nothing -/
+theorem outgoing_crypto_refusal_matches_generated (n : Node) (c : Cell B)
+    (h : Gen.outCryptoRefuses c.plaintext (has n.circuits c.cid)
+          (match get n.circuits c.cid with | some circ => !circ.hops.isEmpty | none => false)
+          (has n.exits c.cid) (has n.relays c.cid) = true) :
+    outCrypto A n c = none := by
+  unfold outCrypto
+  cases hc : get n.circuits c.cid with
+  | some circ =>
+    simp [Gen.outCryptoRefuses, has, hc] at h
+    simp [h.1, h.2]
+  | none =>
+    simp [Gen.outCryptoRefuses, has, hc] at h
+    obtain ⟨hp, he, hr⟩ := h
+    cases he' : get n.exits c.cid with
+    | some e => simp [he'] at he
+    | none =>
+      cases hr' : get n.relays c.cid with
+      | some r => simp [hr'] at hr
+      | none => simp [hp]
 
 /-! ## any number of third-party events, in any order -/
 
